@@ -639,6 +639,36 @@ def run(ctx):
                               signature="dst-size-mismatch:mode%s" % cmd.split()[1])
             ctx.count("dst", 1, ("dst", cmd.split()[1], line[:50]))
     tm["dst"] = time.time() - t0
+    # --------- suspending destination, EVERY buffer size, images whose iMCU rows have several MCU rows (gray v_samp 2 / 4) and
+    #           4:2:2 / 4:2:0 / 4:4:0: resume state (iMCU row, MCU_vert_offset, mcu_ctr) of jccoefct.c
+    t0 = time.time()
+    srng2 = core.SplitMix64(ctx.seed * 2749 + 41)
+    scmds = []
+    for i in range(ctx.n(14, 120)):
+        nc, sub = [(1, 1), (1, 2), (3, 1), (1, 3), (3, 2), (1, 4), (3, 3)][i % 7]
+        scmds.append("encs %d %d %d %d %d %d %d %d %d %d" % (srng2.range(17, 64), srng2.range(17, 70), nc, sub, srng2.choice([50, 75, 95, 100]),
+                                                          srng2.choice([0, 0, 1, 3, -1]), srng2.below(1 << 30), ctx.n(200, 600), 2, srng2.below(1 << 40)))
+    for fl in flavours:
+        rc, res, err = Runner(ctx, exes[fl], fl).run(scmds)
+        if rc != 0 or len(res) < len(scmds):
+            idx = min(len(res), len(scmds) - 1)
+            ctx.violation("encoder with a suspending destination crashed/aborted (%s build, rc=%d): %s" % (fl, rc, err[-300:]),
+                          {"kind": "enc", "cmd": scmds[idx], "flavour": fl}, signature="crash:encs")
+            continue
+        for cmd, line in zip(scmds, res):
+            t = line.split()
+            if len(t) >= 3 and t[2] == "ok":
+                total_sched += int(t[1])
+            else:
+                size = line.split("size=")[1].split()[0] if "size=" in line else "1"
+                sd_ = line.split("seed=")[1].split()[0] if "seed=" in line else "0"
+                c = cmd.split()
+                one = "enc %s %s %s" % (" ".join(c[1:8]), size, sd_)
+                ctx.violation("compressed bytes depend on where the destination suspends (nc=%s sampling %s, buffer %s bytes, %s build): %s" % (
+                                  c[3], c[4], size, fl, line[:100]),
+                              {"kind": "enc", "cmd": one, "flavour": fl, "result": line}, signature="enc-suspend-mismatch:nc%s-sub%s" % (c[3], c[4]))
+            ctx.count("encs", 1, ("encs", cmd.split()[3], cmd.split()[4], line[:30]))
+    tm["encs"] = time.time() - t0
     if drv:
         ctx.cov["traces_validated_against_impl"] = corr
     ctx.cov["model_impl_disagreements"] = disagree
